@@ -216,8 +216,9 @@ def processBlock (h : Hist) (b : Block) (outcome : Outcome) : Hist :=
         let missed := members.filter fun c => !pumped.contains c
         let strangers := pumped.filter fun c => !members.contains c
         let h := if missed.isEmpty then h else
-          { h with concViol := h.concViol.push ("C11", "frame-does-not-reach-member",
-              s!"after the concurrent block the frame of session {sid} did not reach the connections {missed} of its members (members' connections {members}, reached {pumped})") }
+          let d1 := s!"after the concurrent block the frame of session {sid} did not reach the connections {missed} of its members (members' connections {members}, reached {pumped})"
+          let d2 := s!"after the concurrent block the frame handlers of session {sid} are not those of its members: connections {missed} are members and are not reached (reached {pumped})"
+          { h with concViol := (h.concViol.push ("C11", "frame-does-not-reach-member", d1)).push ("C09", "frame-registry-corrupted", d2) }
         if strangers.isEmpty then h else
           { h with concViol := h.concViol.push ("C03", "frame-of-another-session-reaches-connection",
               s!"after the concurrent block the frame of session {sid} drove connections {strangers}, which are not in it (members' connections {members})") }
@@ -246,7 +247,12 @@ def processBlock (h : Hist) (b : Block) (outcome : Outcome) : Hist :=
       else match diffDeliveries ds b.ds with
       | some c =>
         -- what the requester itself is answered (not a join: the state handed over belongs to C01) is C04's subject
-        let own := c == evActor iev && (match iev with | .handle _ (some (.join ..)) _ => false | .handle _ (some _) _ => true | _ => false)
+        -- ... and so is a join that the protocol refuses and the server grants, or the other way round
+        let refusal (l : List Out) : Bool := l.any fun (o : Out) => match o with | .error .. => true | _ => false
+        let granted (l : List Out) : Bool := l.any fun (o : Out) => match o with | .joinResp .. => true | _ => false
+        let joinFlip := c == evActor iev && (match iev with | .handle _ (some (.join ..)) _ => true | _ => false) &&
+          (refusal (inboxOf c ds) != refusal (inboxOf c b.ds) || granted (inboxOf c ds) != granted (inboxOf c b.ds))
+        let own := joinFlip || c == evActor iev && (match iev with | .handle _ (some (.join ..)) _ => false | .handle _ (some _) _ => true | _ => false)
         let viol := if own then h.concViol.push ("C04", "answer-differs-from-protocol",
             s!"event {evNo} ({" ".intercalate (b.ev.take 8)}): the protocol answers {reprStr (inboxOf c ds)}, the server answered {reprStr (inboxOf c b.ds)}") else h.concViol
         { h with concViol := viol, diff := some s!"event={evNo} kind=delivery topic={topic} conn={c} actor={evActor iev} outs={",".intercalate (diffKinds (inboxOf c ds) (inboxOf c b.ds))} :: model {reprStr (inboxOf c ds)} implementation {reprStr (inboxOf c b.ds)}" }
@@ -456,9 +462,17 @@ def processConc (h : Hist) (b : Block) (otoks : List String) : Hist :=
               if n == 1 then none else some s!"connection {c} received the relay of connection {t.1}'s {reqKind r} {n} times"
         | _, _ => []
       -- C03 under concurrency: once a connection has been answered its join, it is sent nothing from the session it left
+      let otsOfReq (r : Req) : Option Nat := match r with
+        | .custom ots _ _ => some ots | .entityAdd _ ots .. => some ots | .entityDelete _ ots _ => some ots
+        | .action _ ots _ => some ots | .assetAdd _ ots .. => some ots | .compAdd _ ots .. => some ots
+        | .compDelete _ ots .. => some ots | .compUpdate ots .. => some ots | .updatePose ots .. => some ots | _ => none
+      let otsOfOut (o : Out) : Option Nat := match o with
+        | .customBcast ots .. => some ots | .entityAddBcast ots _ => some ots | .entityDeleteBcast (some ots) _ => some ots
+        | .actionBcast ots _ => some ots | .assetAddBcast ots _ => some ots | .compAddBcast ots _ => some ots
+        | .compDeleteBcast ots .. => some ots | .compUpdateBcast ots _ => some ots | .poseBcast ots .. => some ots | _ => none
       let lateRelays : List String := tasks.flatMap fun (t : Nat × Option Req) =>
-        match t.2 with
-        | some (.custom ots _ _) =>
+        match t.2.bind otsOfReq with
+        | some ots =>
           match h.srv.locate t.1 with
           | some (sm, _) =>
             (b.ds.map Prod.fst).eraseDups.filterMap fun k =>
@@ -467,8 +481,8 @@ def processConc (h : Hist) (b : Block) (otoks : List String) : Hist :=
               let after := (inbox.dropWhile fun (o : Out) => match o with | .joinResp .. => false | _ => true)
               match after with
               | .joinResp _ _ uuid _ :: rest =>
-                if uuid != sm.uuid && rest.any (fun (o : Out) => match o with | .customBcast o' _ _ => o' == ots | _ => false) then
-                  some s!"connection {k}, after the answer to its join of session uuid {uuid}, is sent the custom message of connection {t.1}, a member of session uuid {sm.uuid}"
+                if uuid != sm.uuid && rest.any (fun (o : Out) => otsOfOut o == some ots) then
+                  some s!"connection {k}, after the answer to its join of session uuid {uuid}, is relayed request {ots} of connection {t.1}, a member of session uuid {sm.uuid}"
                 else none
               | _ => none
           | none => []
